@@ -42,6 +42,9 @@ Leaves == {EInt(0), EInt(2), EInt(3), EId("CI"), EId("CN"), EFloat(3, 1), EId("C
 IdxLeaves == {EInt(0), EInt(4), EInt(5), EUn("-", EInt(1)), EUn("-", EInt(6))}
 D1 == {EBin(o, l, r) : o \in AllOps, l \in Leaves, r \in Leaves}
       \cup {EUn(o, l) : o \in {"-", "not"}, l \in Leaves}
+      \* powers: the result is int only for int ** non-negative int LITERAL; a const used as exponent is not a literal
+      \cup {EBin("**", l, x) : l \in {EInt(2), EInt(3), EId("CI"), EFloat(3, 1), EId("CF")},
+                               x \in {EInt(2), EInt(0), EUn("-", EInt(1)), EId("CI"), EId("CN"), EFloat(3, 1), EId("CF")}}
       \cup {EIndex(o, i) : o \in {EId("CS"), EId("CT"), EStr(<<"u3", "s4">>)}, i \in IdxLeaves}
       \cup {ESlice(o, a, b, c) : o \in {EId("CS")}, a \in {<<>>, <<EInt(1)>>, <<EUn("-", EInt(2))>>},
                                  b \in {<<>>, <<EInt(4)>>, <<EUn("-", EInt(1))>>}, c \in {<<>>, <<EInt(2)>>, <<EUn("-", EInt(1))>>, <<EInt(0)>>}}
@@ -64,7 +67,9 @@ Prog == [consts |-> Append(BaseConsts, [name |-> "K", ty |-> "", e |-> e]),
 \* the run-time-only variant (for error cases: what does evaluating e in a function do?)
 Emit == (Ty \in {"int", "float", "bool", "str"}) =>
           LET r == Run(Prog) IN
-          Specified(r) => PrintT(<<"CASE", ToJson([e |-> e, ty |-> Ty, status |-> r.status, err |-> r.err,
+          \* a power whose value lies outside the exact model is still a case: its TYPE is specified (status "typeonly")
+          (Specified(r) \/ r.err = Inexact) =>
+                          PrintT(<<"CASE", ToJson([e |-> e, ty |-> Ty, status |-> IF r.err = Inexact THEN "typeonly" ELSE r.status, err |-> r.err,
                                                    val |-> IF r.status = "done" THEN <<r.out[1]>> ELSE <<>>,
                                                    agree |-> (r.status # "done" \/ r.out[1] = r.out[2])])>>)
 \* in the specification compile-time and run-time evaluation agree by construction
